@@ -1141,3 +1141,65 @@ def rule_F9(prog):
             r.find(fn.path, "early-return", "iter_inline_changes must return the plain changes for Equal/Insert/Delete ops "
                    "before computing emphasis; early-return tags found: %s" % sorted(vs), file=fn.file, line=fn.line)
     return r
+
+
+# ---------------------------------------------------------------- F10
+def origin_deep(e, lets, depth=0):
+    """origin() with local variables expanded through their `let` initialisers."""
+    e = unwrap(e)
+    if not isinstance(e, dict) or depth > 10:
+        return "?"
+    if e.get("k") == "path" and e.get("res", {}).get("k") == "local" and e["res"]["id"] in lets:
+        return origin_deep(lets[e["res"]["id"]], lets, depth + 1)
+    k = e.get("k")
+    if k == "field":
+        return origin_deep(e["base"], lets, depth + 1) + "." + e["name"]
+    if k == "mcall":
+        return "%s.%s(%s)" % (origin_deep(e["recv"], lets, depth + 1), e["name"],
+                              ",".join(origin_deep(a, lets, depth + 1) for a in e["args"]))
+    if k == "call":
+        f = unwrap(e["f"])
+        return "%s(%s)" % (origin(f), ",".join(origin_deep(a, lets, depth + 1) for a in e["args"]))
+    if k == "index":
+        return "%s[%s]" % (origin_deep(e["base"], lets, depth + 1), origin_deep(e["idx"], lets, depth + 1))
+    if k == "binary":
+        return "(%s%s%s)" % (origin_deep(e["l"], lets, depth + 1), e["op"], origin_deep(e["r"], lets, depth + 1))
+    return origin(e)
+
+
+FIRST_FORMS = ("ops[lit:0]", "ops.first().unwrap()", "ops.first().copied().unwrap()", "ops.iter().next().unwrap()")
+LAST_FORMS = ("ops[(ops.len()-lit:1)]", "ops.last().unwrap()", "ops.last().copied().unwrap()", "ops.iter().last().unwrap()",
+              "ops.iter().next_back().unwrap()")
+
+
+def rule_F10(prog):
+    r = RuleResult("F10", "UnifiedHunkHeader::new takes the old/new start from the FIRST op of the group and the old/new end "
+                          "from the LAST op, old extents from old_range() and new extents from new_range()")
+    if "text" not in prog.features:
+        return r
+    for fn in prog.find("udiff::UnifiedHunkHeader::new"):
+        lets = {}
+        for st in find_nodes(fn.hir["body"], lambda n: n.get("k") == "let" and isinstance(n.get("pat"), dict) and n["pat"].get("k") == "bind"):
+            if st.get("init"):
+                lets[st["pat"]["id"]] = st["init"]
+        lits = find_nodes(fn.hir["body"], lambda n: n["k"] == "struct" and n.get("adt") == "udiff::UnifiedHunkHeader")
+        r.instances += 1
+        if len(lits) != 1:
+            r.ob(False, "UnifiedHunkHeader::new: %d header literals" % len(lits))
+            r.find(fn.path, "no-literal", "UnifiedHunkHeader::new does not build exactly one UnifiedHunkHeader", file=fn.file, line=fn.line)
+            continue
+        f = {x["name"]: origin_deep(x["e"], lets) for x in lits[0]["fields"]}
+        problems = []
+        for side in ("old", "new"):
+            got = f.get(side + "_range", "?")
+            ok = any(got == "udiff::UnifiedDiffHunkRange(%s.%s_range().start,%s.%s_range().end)" % (a, side, b, side) or
+                     got == "UnifiedDiffHunkRange(%s.%s_range().start,%s.%s_range().end)" % (a, side, b, side)
+                     for a in FIRST_FORMS for b in LAST_FORMS)
+            r.instances += 1
+            r.ob(ok, "UnifiedHunkHeader.%s_range = %s" % (side, got))
+            if not ok:
+                problems.append("%s_range = %s" % (side, got))
+        if problems:
+            r.find(fn.path, "extents", "hunk header extents must be (first op).X_range().start .. (last op).X_range().end; "
+                   "found " + "; ".join(problems), file=fn.file, line=fn.line)
+    return r
